@@ -51,11 +51,6 @@ theorem parseMarker_marker_noeol (k : MarkerKind) (n : Nat) (hn : 1 ≤ n) (suff
     · simp
     · intro b hb; simp at hb; subst hb; decide
 
-/-- no line of `c` is a conflict marker of length ≥ `len` -/
-def ContentOK (len : Nat) (c : Bytes) : Prop := ∀ l ∈ linesWT c, parseMarker l len = none
-
-instance (len : Nat) (c : Bytes) : Decidable (ContentOK len c) := by unfold ContentOK; infer_instance
-
 theorem tw_dw_append (p : UInt8 → Bool) (l e : Bytes) (he : ∀ b ∈ e.head?, p b = false) :
     (l ++ e).takeWhile p = l.takeWhile p ∧ (l ++ e).dropWhile p = l.dropWhile p ++ e := by
   induction l with
@@ -783,29 +778,6 @@ theorem nodiff_renders_noeol (diffFn : DiffFn) (style : Style) (hs : style.allow
   rw [materializeConflict_jj diffFn style len labels eol h ci nc hnot hl]
   simp only [hall, Bool.false_eq_true, if_false, hmat]
 
-def startsResolved : List (List Bytes) → Bool
-  | [_] :: _ => true
-  | _ => false
-
-/-- per-hunk part of the well-formedness of a hunk list as `files::merge_hunks` produces it -/
-def HunksWFAux (n len : Nat) : List (List Bytes) → Prop
-  | [] => True
-  | h :: rest =>
-    (match h with
-     | [c] => c ≠ [] ∧ ContentOK len c ∧ (rest ≠ [] → EndsLF c ∧ startsResolved rest = false)
-     | _ => h.length % 2 = 1 ∧ numSides h = n ∧ (∀ c ∈ h, ContentOK len c) ∧
-        (rest ≠ [] → allSidesHaveEol h = true))
-    ∧ HunksWFAux n len rest
-
-instance decHunksWFAux (n len : Nat) : (hs : List (List Bytes)) → Decidable (HunksWFAux n len hs)
-  | [] => isTrue trivial
-  | h :: rest => by
-    have := decHunksWFAux n len rest
-    unfold HunksWFAux
-    split
-    · unfold EndsLF; infer_instance
-    · infer_instance
-
 /-- every unresolved hunk renders as a well-formed conflict block (style specific) -/
 def AllRender (diffFn : DiffFn) (style : Style) (len : Nat) (labels : List Bytes) (eol : Bytes)
     (hs : List (List Bytes)) : Prop :=
@@ -1202,14 +1174,6 @@ theorem parseMarkerAnyLen_cons {p : UInt8} {l : Bytes} {k : MarkerKind} {m : Nat
         simp only [List.takeWhile_cons, List.dropWhile_cons, hq'] at h
         simpa using markerTail_len h
 
-/-- what the diff styles additionally need of a content: a line stays a non-marker when one of the
-diff prefixes `' '`, `'-'`, `'+'` is put in front -/
-def DiffSafe (len : Nat) (c : Bytes) : Prop :=
-  ∀ l ∈ linesWT c, parseMarker (32 :: l) len = none ∧ parseMarker (45 :: l) len = none ∧
-    parseMarker (43 :: l) len = none
-
-instance (len : Nat) (c : Bytes) : Decidable (DiffSafe len c) := by unfold DiffSafe; infer_instance
-
 theorem chooseMarkerLen_prefixed (files : List Bytes) (f : Bytes) (hf : f ∈ files) (l : Bytes)
     (hl : l ∈ linesWT f) (p : UInt8) : parseMarker (p :: l) (chooseMarkerLen files) = none := by
   unfold parseMarker
@@ -1346,15 +1310,6 @@ theorem BodyOK_writeDiffHunks (len : Nat) (d : List DiffGroup) (hd : ∀ g ∈ d
     · exact BodyOK_prefixLines 32 (by decide) _ hl (fun l h => (hsl l h).1)
     · exact BodyOK_append (BodyOK_prefixLines 45 (by decide) _ hl (fun l h => (hsl l h).2.1))
         (BodyOK_prefixLines 43 (by decide) _ hr (fun l h => (hsr l h).2.2))
-
-/-- The assumption about a two-sided line diff (the subject of C03, an input here): the groups
-reconstruct both sides, matching groups have equal contents, and every group consists of whole
-lines. -/
-structure DiffOK (d : List DiffGroup) (l r : Bytes) : Prop where
-  left : (d.map (·.left)).flatten = l
-  right : (d.map (·.right)).flatten = r
-  matching : ∀ g ∈ d, g.matching = true → g.left = g.right
-  aligned : ∀ g ∈ d, EndsLF g.left ∧ EndsLF g.right
 
 theorem linesWT_flatten_EndsLF (cs : List Bytes) (h : ∀ c ∈ cs, EndsLF c) :
     linesWT cs.flatten = cs.flatMap linesWT := by
